@@ -8,6 +8,14 @@
 // {}, one key, overlapping key, both, error}} x caller metadata {absent, with
 // an overlapping multi-valued set} x {unary, streaming} x peer option x header
 // option.
+//
+// Plus the key-case grammar (mergeT): spelling of the credential's keys {lower,
+// Capitalised, UPPER} x spelling of the caller's keys {lower, Capitalised,
+// UPPER} x {caller has the credential's key too, disjoint} x how the caller
+// built its context {NewOutgoingContext, AppendToOutgoingContext, both} x
+// {one, two} caller values under the shared key, on every transport and kind.
+// Metadata keys are case-insensitive: the handler has to find all the caller's
+// values and the credential's value under the lower-cased key.
 package main
 
 import (
@@ -54,6 +62,141 @@ type caseT struct {
 	PeerOpt   bool   `json:"peer_option"`
 	HdrOpt    bool   `json:"header_option"`
 	Reject    string `json:"reject,omitempty"` // "" | unknown-method (404 from the server) | front-503 (a front handler sheds the request)
+	// Merge, when set, replaces the fixed credential / caller metadata of
+	// Creds="both", CallerMD="some" by a member of the key-case grammar
+	Merge *mergeT `json:"merge,omitempty"`
+}
+
+// mergeT: the logical metadata is always caller {a:[1,2], shared:[caller-v(,caller-w)]}
+// (shared only with Overlap) and credential {tok:t1, shared:cred-v}; what varies
+// is how the keys are spelled and how the caller attached its part.
+type mergeT struct {
+	CredKey   string `json:"cred_key"`   // lower | cap | upper: spelling of the keys of the credential's map
+	CallerKey string `json:"caller_key"` // lower | cap | upper: spelling of the caller's keys
+	Overlap   bool   `json:"overlap"`    // the caller has the key "shared" too
+	Build     string `json:"build"`      // new (NewOutgoingContext(metadata.Pairs(...))) | append (AppendToOutgoingContext only) | new+append (first value of each key by New, the rest appended)
+	Vals      int    `json:"vals"`       // caller values under "shared": 1 | 2 (0 without Overlap)
+}
+
+func spell(style, key string) string {
+	switch style {
+	case "lower":
+		return key
+	case "cap":
+		return strings.ToUpper(key[:1]) + key[1:]
+	case "upper":
+		return strings.ToUpper(key)
+	}
+	panic("bad key spelling " + style)
+}
+
+func (m *mergeT) String() string {
+	if m == nil {
+		return "-"
+	}
+	return fmt.Sprintf("{cred-key=%s caller-key=%s overlap=%v build=%s vals=%d}", m.CredKey, m.CallerKey, m.Overlap, m.Build, m.Vals)
+}
+
+// relation of the credential's spelling of "shared" to the caller's
+func (m *mergeT) relation() string {
+	switch {
+	case !m.Overlap:
+		return "disjoint"
+	case m.CredKey == m.CallerKey:
+		return "same-case"
+	}
+	return "different-case"
+}
+
+func (m *mergeT) sharedVals() []string {
+	if !m.Overlap {
+		return nil
+	}
+	return []string{"caller-v", "caller-w"}[:m.Vals]
+}
+
+// callerLogical is the caller's metadata with lower-cased keys (what it means).
+func (m *mergeT) callerLogical() metadata.MD {
+	md := metadata.MD{"a": {"1", "2"}}
+	if m.Overlap {
+		md["shared"] = m.sharedVals()
+	}
+	return md
+}
+
+// callerContext attaches the caller's metadata the way m says; md is the MD
+// object handed to NewOutgoingContext (nil when there is none). The caller
+// writes its keys in its spelling through the grpc metadata package
+// (metadata.Pairs, AppendToOutgoingContext), as grpc-go demands: an MD literal
+// with upper-case keys is refused by grpc-go itself ("header key contains
+// illegal characters"), so that is not a member of the grammar.
+func (m *mergeT) callerContext() (ctx context.Context, md metadata.MD) {
+	ctx = context.Background()
+	ka, ks := spell(m.CallerKey, "a"), spell(m.CallerKey, "shared")
+	sv := m.sharedVals()
+	var kv []string
+	switch m.Build {
+	case "new":
+		kv = []string{ka, "1", ka, "2"}
+		for _, v := range sv {
+			kv = append(kv, ks, v)
+		}
+		md, kv = metadata.Pairs(kv...), nil
+	case "append":
+		kv = []string{ka, "1", ka, "2"}
+		for _, v := range sv {
+			kv = append(kv, ks, v)
+		}
+	case "new+append":
+		first := []string{ka, "1"}
+		kv = []string{ka, "2"}
+		if m.Overlap {
+			first = append(first, ks, sv[0])
+			for _, v := range sv[1:] {
+				kv = append(kv, ks, v)
+			}
+		}
+		md = metadata.Pairs(first...)
+	default:
+		panic("bad caller build " + m.Build)
+	}
+	if md != nil {
+		ctx = metadata.NewOutgoingContext(ctx, md)
+	}
+	if len(kv) > 0 {
+		ctx = metadata.AppendToOutgoingContext(ctx, kv...)
+	}
+	return ctx, md
+}
+
+func mergeShapes() (out []*mergeT) {
+	styles := []string{"lower", "cap", "upper"}
+	for _, ck := range styles {
+		for _, lk := range styles {
+			for _, b := range []string{"new", "append", "new+append"} {
+				out = append(out, &mergeT{CredKey: ck, CallerKey: lk, Build: b})
+				for _, n := range []int{1, 2} {
+					out = append(out, &mergeT{CredKey: ck, CallerKey: lk, Overlap: true, Build: b, Vals: n})
+				}
+			}
+		}
+	}
+	return out
+}
+
+func (c caseT) credMD() (map[string]string, error) {
+	if c.Merge != nil {
+		return map[string]string{spell(c.Merge.CredKey, "tok"): "t1", spell(c.Merge.CredKey, "shared"): "cred-v"}, nil
+	}
+	return credMD(c.Creds)
+}
+
+// callerLogical: the caller's metadata of the case, keys lower-cased.
+func (c caseT) callerLogical() metadata.MD {
+	if c.Merge != nil {
+		return c.Merge.callerLogical()
+	}
+	return callerMD(c.CallerMD)
 }
 
 func credMD(kind string) (map[string]string, error) {
@@ -82,7 +225,7 @@ func callerMD(kind string) metadata.MD {
 }
 
 type cred struct {
-	kind     string
+	c        caseT
 	require  bool
 	nRequire int64
 	nGet     int64
@@ -92,7 +235,7 @@ type cred struct {
 func (c *cred) GetRequestMetadata(ctx context.Context, uri ...string) (map[string]string, error) {
 	atomic.AddInt64(&c.nGet, 1)
 	c.uri.Store(strings.Join(uri, ","))
-	return credMD(c.kind)
+	return c.c.credMD()
 }
 func (c *cred) RequireTransportSecurity() bool {
 	atomic.AddInt64(&c.nRequire, 1)
@@ -409,7 +552,9 @@ func runCtx(e *env, c caseT, base context.Context) (o obsT) {
 
 	if base == nil {
 		base = context.Background()
-		if md := callerMD(c.CallerMD); md != nil {
+		if c.Merge != nil {
+			base, _ = c.Merge.callerContext()
+		} else if md := callerMD(c.CallerMD); md != nil {
 			base = metadata.NewOutgoingContext(base, md)
 		}
 	}
@@ -418,7 +563,7 @@ func runCtx(e *env, c caseT, base context.Context) (o obsT) {
 	var opts []grpc.CallOption
 	var cr *cred
 	if c.Creds != "none" {
-		cr = &cred{kind: c.Creds, require: c.Require}
+		cr = &cred{c: c, require: c.Require}
 		opts = append(opts, grpc.PerRPCCredentials(cr))
 	}
 	var pr peer.Peer
@@ -516,16 +661,39 @@ func isTLS(t string) bool  { return t == "https" || t == "https-h2" }
 // wantMD is what the handler has to find at least (multiset per key).
 func wantMD(c caseT) map[string][]string {
 	w := map[string][]string{}
-	for k, vs := range callerMD(c.CallerMD) {
+	for k, vs := range c.callerLogical() {
 		w[k] = append(w[k], vs...)
 	}
 	if c.Creds != "none" {
-		m, _ := credMD(c.Creds)
+		m, _ := c.credMD()
 		for k, v := range m {
+			// metadata keys are case-insensitive; the handler sees them lower-cased
+			k = strings.ToLower(k)
 			w[k] = append(w[k], v)
 		}
 	}
 	return w
+}
+
+// callerSpelled is the caller's metadata with the keys as the caller wrote them.
+func (m *mergeT) callerSpelled() metadata.MD {
+	md := metadata.MD{}
+	for k, vs := range m.callerLogical() {
+		md[spell(m.CallerKey, k)] = vs
+	}
+	return md
+}
+
+// mdString prints a map in key order (fmt does that for maps).
+func mdString(md metadata.MD) string { return fmt.Sprint(map[string][]string(md)) }
+
+func mapKeys(m map[string]string) string {
+	var ks []string
+	for k := range m {
+		ks = append(ks, k)
+	}
+	sort.Strings(ks)
+	return fmt.Sprintf("%q", ks)
 }
 
 func containsAll(have, want []string) bool {
@@ -542,7 +710,27 @@ func containsAll(have, want []string) bool {
 	return true
 }
 
-func check(c caseT, o obsT) (fs []finding) {
+// check: the clauses applicable to the case and whether they held. The cases
+// of the key-case grammar are about metadata only (the peer clauses are
+// covered by the main product) and get clause names of their own, so that
+// their parameters are collapsed among themselves.
+func check(c caseT, o obsT) []finding {
+	fs := check0(c, o)
+	if c.Merge == nil {
+		return fs
+	}
+	var out []finding
+	for _, f := range fs {
+		if strings.Contains(f.clause, "peer") {
+			continue
+		}
+		f.clause = "key-case/" + f.clause
+		out = append(out, f)
+	}
+	return out
+}
+
+func check0(c caseT, o obsT) (fs []finding) {
 	if o.Panic != "" {
 		return []finding{{"no-panic", "panic", o.Panic}}
 	}
@@ -610,6 +798,15 @@ func check(c caseT, o obsT) (fs []finding) {
 			if !containsAll(o.HandlerMD[k], want[k]) {
 				f.fail = "key=" + k
 				f.detail = fmt.Sprintf("handler saw %q=%q, needs all of %q (caller metadata %v, credential metadata kind %q)", k, o.HandlerMD[k], want[k], callerMD(c.CallerMD), c.Creds)
+				if c.Merge != nil {
+					// which values are missing is left out on purpose: when two spellings
+					// of one key collide in a map, the survivor depends on Go's map
+					// iteration order, the verdict (not everything arrived) does not.
+					// --replay prints what the handler saw.
+					cm, _ := c.credMD()
+					f.detail = fmt.Sprintf("the handler did not receive all of %q under key %q: caller attached %s by %s, credential map has keys spelled %s (relation of the two spellings of %q: %s)",
+						want[k], k, mdString(c.Merge.callerSpelled()), c.Merge.Build, mapKeys(cm), "shared", c.Merge.relation())
+				}
 				break
 			}
 		}
@@ -671,6 +868,46 @@ func peerOptFindings(c caseT, o obsT, suffix string) (fs []finding) {
 	return fs
 }
 
+// calibrateOracle feeds the metadata-merge clause synthetic observations: for
+// every shape with a key on both sides, (1) everything arrived -> must hold,
+// (2) only the caller's values arrived under the shared key, (3) only the
+// credential's value arrived -> both must be rejected. (2) and (3) are the two
+// outcomes of two spellings of one key colliding in a map, whichever way Go's
+// map iteration goes; the verdict must not depend on which one happens.
+func calibrateOracle() (n int, err error) {
+	for _, m := range mergeShapes() {
+		c := caseT{Transport: "inproc", Op: "unary", Creds: "both", CallerMD: "shape", PeerOpt: true, Merge: m}
+		verdict := func(shared []string) string {
+			md := metadata.MD{"a": {"1", "2"}, "tok": {"t1"}}
+			if shared != nil {
+				md["shared"] = shared
+			}
+			o := obsT{HandlerRan: 1, Reply: "resp", HandlerMD: md, HPeerOK: true, HPeerAddr: "x", CPeerSet: true, CPeerAddr: "x"}
+			for _, f := range check(c, o) {
+				if f.clause == "key-case/metadata-merge" {
+					return f.fail
+				}
+			}
+			return "clause-not-evaluated"
+		}
+		n++
+		if v := verdict(append(append([]string(nil), m.sharedVals()...), "cred-v")); v != "" {
+			return n, fmt.Errorf("shape %v: complete metadata rejected (%s)", m, v)
+		}
+		if !m.Overlap {
+			continue
+		}
+		if v := verdict(m.sharedVals()); v != "key=shared" {
+			return n, fmt.Errorf("shape %v: loss of the credential's value not reported (%q)", m, v)
+		}
+		if v := verdict([]string{"cred-v"}); v != "key=shared" {
+			return n, fmt.Errorf("shape %v: loss of the caller's values not reported (%q)", m, v)
+		}
+		n += 2
+	}
+	return n, nil
+}
+
 // ---- enumeration -----------------------------------------------------------
 
 func cases(tier string) []caseT {
@@ -708,6 +945,23 @@ func cases(tier string) []caseT {
 			}
 		}
 	}
+	// the key-case grammar, on every transport and kind, with and without the
+	// security requirement; host spelling and peer/header options (independent
+	// of the metadata path) stay at one value
+	shapes := mergeShapes()
+	for _, t := range trs {
+		host := ""
+		if t != "inproc" {
+			host = "v4"
+		}
+		for _, op := range ops {
+			for _, req := range []bool{false, true} {
+				for _, m := range shapes {
+					out = append(out, caseT{Transport: t, Op: op, Host: host, Creds: "both", Require: req, CallerMD: "shape", PeerOpt: true, Merge: m})
+				}
+			}
+		}
+	}
 	// rejected calls: a response comes back, but not from a handler
 	for _, t := range trs {
 		if t == "inproc" {
@@ -731,7 +985,7 @@ func cases(tier string) []caseT {
 // ---- sequences of calls on one caller context ------------------------------
 
 type seqT struct {
-	CallerCtx string  `json:"caller_ctx"` // new: metadata.NewOutgoingContext(md) | new+append: NewOutgoingContext then AppendToOutgoingContext
+	CallerCtx string  `json:"caller_ctx"` // new: metadata.NewOutgoingContext(md) | new+append: NewOutgoingContext then AppendToOutgoingContext | key-case: as the steps' Merge says (same caller part in every step)
 	Steps     []caseT `json:"steps"`
 }
 
@@ -765,10 +1019,19 @@ func sameMD(a, b metadata.MD) bool {
 }
 
 func runSeq(e *env, q seqT) (obs []obsT, fs []seqFinding) {
-	ctx, md, orig := seqContext(q.CallerCtx)
+	var ctx context.Context
+	var md, orig metadata.MD
+	if m := q.Steps[0].Merge; m != nil {
+		ctx, md = m.callerContext()
+		orig = md.Copy()
+	} else {
+		ctx, md, orig = seqContext(q.CallerCtx)
+	}
 	mutated := false
 	for i, c := range q.Steps {
-		c.CallerMD = "some"
+		if c.Merge == nil {
+			c.CallerMD = "some"
+		}
 		o := guardedCtx(e, c, ctx)
 		obs = append(obs, o)
 		for _, f := range check(c, o) {
@@ -784,6 +1047,10 @@ func runSeq(e *env, q seqT) (obs []obsT, fs []seqFinding) {
 				if strings.Join(have, "\x00") != strings.Join(w, "\x00") || len(have) != len(w) {
 					f.fail = "key=" + k
 					f.detail = fmt.Sprintf("call %d of the sequence (%s %s creds=%s): handler saw %q=%q, exactly %q expected (caller metadata + this call's credential metadata)", i+1, c.Transport, c.Op, c.Creds, k, o.HandlerMD[k], want[k])
+					if c.Merge != nil {
+						// observed values left out: see the metadata-merge clause
+						f.detail = fmt.Sprintf("call %d of the sequence (%s %s, key-case shape %v): the handler's values under %q are not exactly %q (caller metadata + this call's credential metadata)", i+1, c.Transport, c.Op, c.Merge, k, want[k])
+					}
 					break
 				}
 			}
@@ -839,6 +1106,31 @@ func seqs(tier string, ref bool) []seqT {
 			}
 		}
 	}
+	// key-case grammar on one shared context: every caller part x every ordered
+	// pair of credential key spellings, a unary call then a stream
+	for _, t := range trs {
+		if !ref && t != "inproc" && t != "http-rt" && t != "https" {
+			continue
+		}
+		host := ""
+		if t != "inproc" && t != "grpc-go" {
+			host = "v4"
+		}
+		for _, m := range mergeShapes() {
+			if m.CredKey != "lower" {
+				continue // one representative per caller part
+			}
+			for _, k1 := range []string{"lower", "cap", "upper"} {
+				for _, k2 := range []string{"lower", "cap", "upper"} {
+					m1, m2 := *m, *m
+					m1.CredKey, m2.CredKey = k1, k2
+					out = append(out, seqT{CallerCtx: "key-case", Steps: []caseT{
+						{Transport: t, Op: "unary", Host: host, Creds: "both", CallerMD: "shape", Merge: &m1},
+						{Transport: t, Op: "bidi", Host: host, Creds: "both", CallerMD: "shape", Merge: &m2}}})
+				}
+			}
+		}
+	}
 	if tier == "thorough" {
 		var small []caseT
 		for _, st := range steps {
@@ -864,7 +1156,102 @@ func dims(c caseT) [][2]string {
 	if c.Creds != "none" {
 		creds = fmt.Sprintf("%s/require=%v", c.Creds, c.Require)
 	}
-	return [][2]string{{"reject", c.Reject}, {"host", c.Host}, {"creds", creds}, {"caller-md", c.CallerMD}, {"peer-opt", fmt.Sprint(c.PeerOpt)}, {"hdr-opt", fmt.Sprint(c.HdrOpt)}}
+	ds := [][2]string{{"reject", c.Reject}, {"host", c.Host}, {"creds", creds}, {"caller-md", c.CallerMD}, {"peer-opt", fmt.Sprint(c.PeerOpt)}, {"hdr-opt", fmt.Sprint(c.HdrOpt)}}
+	return append(ds, mergeDims(c.Merge)...)
+}
+
+var dimNames = []string{"reject", "host", "creds", "caller-md", "peer-opt", "hdr-opt", "cred-key", "caller-key", "key-relation", "caller-build", "caller-vals"}
+
+func mergeDims(m *mergeT) [][2]string {
+	if m == nil {
+		return [][2]string{{"cred-key", ""}, {"caller-key", ""}, {"key-relation", ""}, {"caller-build", ""}, {"caller-vals", ""}}
+	}
+	vals := "n/a" // no shared key on the caller's side: not a value of this parameter
+	if m.Overlap {
+		vals = fmt.Sprint(m.Vals)
+	}
+	return [][2]string{{"cred-key", m.CredKey}, {"caller-key", m.CallerKey}, {"key-relation", m.relation()}, {"caller-build", m.Build}, {"caller-vals", vals}}
+}
+
+// grouper collapses the failing cases of one clause into one report per
+// (scope, clause, failure): a parameter appears in the fingerprint only when
+// the clause fails for some but not all of the values it was evaluated with.
+type group struct {
+	first   interface{}
+	detail  string
+	failing []map[string]bool
+	order   int
+}
+
+type grouper struct {
+	names      []string
+	applicable map[string][]map[string]bool // scope|clause -> per parameter the values evaluated
+	groups     map[string]*group            // scope|clause|fail
+}
+
+func newGrouper(names []string) *grouper {
+	return &grouper{names: names, applicable: map[string][]map[string]bool{}, groups: map[string]*group{}}
+}
+
+func (gr *grouper) add(ak string, ds [][2]string, f finding, first interface{}) {
+	if gr.applicable[ak] == nil {
+		gr.applicable[ak] = make([]map[string]bool, len(ds))
+		for i := range ds {
+			gr.applicable[ak][i] = map[string]bool{}
+		}
+	}
+	for i, d := range ds {
+		if d[1] != "n/a" {
+			gr.applicable[ak][i][d[1]] = true
+		}
+	}
+	if f.fail == "" {
+		return
+	}
+	gk := ak + "|" + f.fail
+	g := gr.groups[gk]
+	if g == nil {
+		g = &group{first: first, detail: f.detail, order: len(gr.groups), failing: make([]map[string]bool, len(ds))}
+		for i := range ds {
+			g.failing[i] = map[string]bool{}
+		}
+		gr.groups[gk] = g
+	}
+	for i, d := range ds {
+		if d[1] != "n/a" {
+			g.failing[i][d[1]] = true
+		}
+	}
+}
+
+func (gr *grouper) report(rep *vlib.Reporter, prefix, everywhere string) {
+	var gks []string
+	for k := range gr.groups {
+		gks = append(gks, k)
+	}
+	sort.Slice(gks, func(i, j int) bool { return gr.groups[gks[i]].order < gr.groups[gks[j]].order })
+	for _, gk := range gks {
+		g := gr.groups[gk]
+		ak := gk[:strings.LastIndex(gk, "|")]
+		fp := prefix + gk
+		scope := ""
+		for i, n := range gr.names {
+			if len(g.failing[i]) == len(gr.applicable[ak][i]) {
+				continue // fails for every value of this parameter the clause was evaluated with
+			}
+			var vs []string
+			for v := range g.failing[i] {
+				vs = append(vs, v)
+			}
+			sort.Strings(vs)
+			fp += "|" + n + "=" + strings.Join(vs, ",")
+			scope += fmt.Sprintf(" only for %s in {%s};", n, strings.Join(vs, ","))
+		}
+		if scope == "" {
+			scope = everywhere
+		}
+		rep.Violation(fp, g.detail+" —"+scope+fmt.Sprintf(" first case %+v", g.first), g.first)
+	}
 }
 
 func guarded(e *env, c caseT) obsT { return guardedCtx(e, c, nil) }
@@ -933,6 +1320,11 @@ func main() {
 
 	// thorough: the oracle itself has to accept what grpc-go does (insecure
 	// transport over bufconn) on the same credential/metadata/peer grammar.
+	calibrated, err := calibrateOracle()
+	if err != nil {
+		fmt.Fprintln(os.Stderr, "INCONCLUSIVE: oracle calibration:", err)
+		os.Exit(2)
+	}
 	refRuns := 0
 	if rep.Tier == "thorough" {
 		for _, c := range cases("thorough") {
@@ -964,14 +1356,8 @@ func main() {
 		}
 	}
 
-	type group struct {
-		first   caseT
-		detail  string
-		failing []map[string]bool
-		order   int
-	}
-	applicable := map[string][]map[string]bool{} // transport|op|clause -> per dim the values evaluated
-	groups := map[string]*group{}                // transport|op|clause|fail
+	single := newGrouper(dimNames) // scope transport|op
+	nKeyCase, keyCaseMerged, keyCaseTwoSpellings := 0, map[string]bool{}, map[string]bool{}
 	distinct := map[string]bool{}
 	clauseCount := map[string]int{}
 	var samples []interface{}
@@ -984,35 +1370,25 @@ func main() {
 		if o.CredCalls[0]+o.CredCalls[1] > 0 || o.CPeerSet || isTLS(c.Transport) {
 			distinct[fmt.Sprintf("%+v", c)] = true
 		}
+		if m := c.Merge; m != nil {
+			nKeyCase++
+			if o.CredCalls[1] > 0 && o.HandlerRan > 0 {
+				k := fmt.Sprintf("%s|%s|%v|%v", c.Transport, c.Op, c.Require, m)
+				keyCaseMerged[k] = true
+				if m.Overlap && m.CredKey != "lower" {
+					keyCaseTwoSpellings[k] = true
+				}
+			}
+			if sk := "key-case|" + c.Transport; !sampled[sk] && m.CredKey == "cap" && m.CallerKey == "lower" && m.Overlap && m.Build == "new+append" && m.Vals == 2 {
+				sampled[sk] = true
+				samples = append(samples, map[string]interface{}{"case": c, "observed": o})
+			}
+		}
 		fs := check(c, o)
 		ds := dims(c)
 		for _, f := range fs {
-			ak := c.Transport + "|" + c.Op + "|" + f.clause
 			clauseCount[f.clause]++
-			if applicable[ak] == nil {
-				applicable[ak] = make([]map[string]bool, len(ds))
-				for i := range ds {
-					applicable[ak][i] = map[string]bool{}
-				}
-			}
-			for i, d := range ds {
-				applicable[ak][i][d[1]] = true
-			}
-			if f.fail == "" {
-				continue
-			}
-			gk := ak + "|" + f.fail
-			g := groups[gk]
-			if g == nil {
-				g = &group{first: c, detail: f.detail, order: len(groups), failing: make([]map[string]bool, len(ds))}
-				for i := range ds {
-					g.failing[i] = map[string]bool{}
-				}
-				groups[gk] = g
-			}
-			for i, d := range ds {
-				g.failing[i][d[1]] = true
-			}
+			single.add(c.Transport+"|"+c.Op+"|"+f.clause, ds, f, c)
 		}
 		sk := c.Transport + "|" + c.Op
 		if !sampled[sk] && c.Creds == "both" && c.CallerMD == "some" && c.PeerOpt {
@@ -1021,37 +1397,11 @@ func main() {
 		}
 	}
 
-	var gks []string
-	for k := range groups {
-		gks = append(gks, k)
-	}
-	sort.Slice(gks, func(i, j int) bool { return groups[gks[i]].order < groups[gks[j]].order })
-	names := []string{"reject", "host", "creds", "caller-md", "peer-opt", "hdr-opt"}
-	for _, gk := range gks {
-		g := groups[gk]
-		ak := gk[:strings.LastIndex(gk, "|")]
-		fp := "C13|" + gk
-		scope := ""
-		for i, n := range names {
-			if len(g.failing[i]) == len(applicable[ak][i]) {
-				continue // fails for every value of this parameter the clause was evaluated with
-			}
-			var vs []string
-			for v := range g.failing[i] {
-				vs = append(vs, v)
-			}
-			sort.Strings(vs)
-			fp += "|" + n + "=" + strings.Join(vs, ",")
-			scope += fmt.Sprintf(" only for %s in {%s};", n, strings.Join(vs, ","))
-		}
-		if scope == "" {
-			scope = " for every host spelling / credential / caller-metadata / option combination the clause applies to"
-		}
-		rep.Violation(fp, g.detail+" —"+scope+fmt.Sprintf(" first case %+v", g.first), g.first)
-	}
+	single.report(rep, "C13|", " for every host spelling / credential / caller-metadata / option combination the clause applies to")
 
 	// sequences of calls sharing the caller's context
-	nSeq, nSeqCalls := 0, 0
+	nSeq, nSeqCalls, nKeyCaseSeq := 0, 0, 0
+	keyCaseSeq := newGrouper([]string{"call", "earlier-cred-key", "cred-key", "caller-key", "key-relation", "caller-build", "caller-vals"}) // scope transport
 	for _, q := range seqs(rep.Tier, false) {
 		obs, fs := runSeq(e, q)
 		nSeq++
@@ -1064,8 +1414,21 @@ func main() {
 		if withCreds {
 			distinct[fmt.Sprintf("%+v", q)] = true
 		}
+		if q.CallerCtx == "key-case" {
+			nKeyCaseSeq++
+		}
 		for _, f := range fs {
 			clauseCount[f.clause]++
+			if q.CallerCtx == "key-case" {
+				st := q.Steps[f.step]
+				earlier := "-"
+				if f.step > 0 {
+					earlier = q.Steps[f.step-1].Merge.CredKey
+				}
+				ds := append([][2]string{{"call", fmt.Sprintf("%d:%s", f.step+1, st.Op)}, {"earlier-cred-key", earlier}}, mergeDims(st.Merge)...)
+				keyCaseSeq.add(st.Transport+"|"+f.clause, ds, f.finding, q)
+				continue
+			}
 			if f.fail != "" {
 				rep.Violation(seqFingerprint(q, f), f.detail, q)
 			}
@@ -1074,6 +1437,8 @@ func main() {
 			samples = append(samples, map[string]interface{}{"sequence": q, "observed": obs})
 		}
 	}
+
+	keyCaseSeq.report(rep, "C13|seq|ctx=key-case|", " for every key spelling / caller context construction of the key-case grammar, in both calls of the sequence")
 
 	for _, s := range e.servers {
 		s.CloseClientConnections()
@@ -1086,17 +1451,31 @@ func main() {
 			map[bool]string{true: ", https with HTTP/2", false: ""}[rep.Tier == "thorough"] + "} x base-URL host spelling {IPv4:port, IPv4 without port, [::1]:port, [0:0:0:0:0:0:0:1]:port, [::1] without port; HTTP transports, the dialer always reaches the real listener} x ops x credentials {absent, {require security or not} x metadata {nil, empty, one key, overlapping key, both, error}} x caller metadata {absent, {a:[1,2],shared:[caller-v]}} x peer option x header option. " +
 			"Plus rejected calls (unknown method -> 404, a front handler answering 503) x HTTP transports x {IPv4, IPv6} host x ops x {no creds, creds} x header option, with the peer option. " +
 			"Plus every sequence of 2 calls (thorough: also of 3) on ONE caller context, each call from {in-process, http, https} x {unary, bidi} x {no creds, creds, creds requiring security}, context made by NewOutgoingContext or NewOutgoingContext+AppendToOutgoingContext: per call the handler's metadata on keys {a,shared,tok} is exactly caller + that call's credential metadata, and the caller's MD object is unchanged. " +
+			"Plus the key-case grammar (81 shapes): spelling of the credential map's keys {lower, Capitalised, UPPER} x spelling of the caller's keys {lower, Capitalised, UPPER} x {caller has only key a (disjoint); caller also has the credential's key shared, with 1 or 2 values} x caller context built by {NewOutgoingContext(metadata.Pairs(keys as spelled)), AppendToOutgoingContext(keys as spelled) only, first value of each key by NewOutgoingContext(Pairs) and the rest appended}; logical content always caller {a:[1,2], shared:[caller-v(,caller-w)]}, credential {tok:t1, shared:cred-v}. Crossed with every transport x every op x {require security or not}; host spelling (IPv4:port) and peer/header options (peer only) are held at one value for these cases because they do not touch the metadata path (they are crossed with credentials in the main product). Clause key-case/metadata-merge: the handler finds all the caller's values and the credential's value under the LOWER-CASED key. " +
+			"Plus, for every caller part of the key-case grammar (27) x every ordered pair of credential key spellings (9) x {in-process, http, https}: a unary call then a bidi stream on ONE caller context, with the same exact-metadata and caller-MD-unchanged clauses. " +
+			"Verdicts do not depend on Go's map iteration order: when two spellings of one key collide in a map either the caller's or the credential's values survive, and both outcomes violate the inclusion (and the exact) clause; the oracle calibration feeds both outcomes (and the complete one) to the clause for every shape before the run; each case is run once; the text of a report leaves out the observed values for these cases (--replay prints them). " +
 			"A case is non-trivial when the credential object was actually consulted (its RequireTransportSecurity/GetRequestMetadata call counters are > 0), or the grpc.Peer target was written, or the connection was TLS (so the TLS-info clause of the handler's peer applies); distinct by all case parameters.",
 		"clause_evaluations":          clauseCount,
 		"sequences":                   nSeq,
 		"sequence_calls":              nSeqCalls,
 		"grpc_go_reference_oracle_ok": refRuns,
-		"samples":                     samples,
-		"exhaustive":                  true,
+		"key_case": map[string]interface{}{
+			"shapes":                   len(mergeShapes()),
+			"cases":                    nKeyCase,
+			"sequences":                nKeyCaseSeq,
+			"distinct_reaching_merge":  len(keyCaseMerged),
+			"of_those_two_spellings":   len(keyCaseTwoSpellings),
+			"rule":                     "distinct (transport, op, require, shape) where GetRequestMetadata was called and the handler ran, i.e. the merged metadata travelled to the handler; 'two spellings': the credential spells the shared key with upper-case letters and the caller has that key too (the grpc metadata package hands the caller's keys to the library lower-cased), so the library holds two spellings of one key when it merges",
+			"oracle_calibration_cases": calibrated,
+		},
+		"samples":    samples,
+		"exhaustive": true,
 	}, []string{
 		"loopback TCP/TLS only where the real net/http + crypto/tls stack is the subject (reply.TLS, r.TLS, RemoteAddr); every case uses a fresh connection",
 		"in-process with credentials that require transport security: both refusing and accepting are taken as conforming (the statement only speaks about the HTTP base URL)",
 		"metadata merge is demanded as multiset inclusion per key (all caller values and all credential values present), order and extra keys free",
+		"metadata keys are case-insensitive (grpc-go lower-cases the keys of a credential's map and of the outgoing metadata; thorough runs the whole key-case grammar against grpc-go over bufconn and requires the oracle to accept it): the handler has to find the values under the lower-cased key however caller and credential spelled it",
+		"not in the grammar: a credential map that holds two spellings of the same key at once (grpc-go keeps only one of them); a caller metadata.MD literal with upper-case keys (grpc-go refuses the call: 'header key contains illegal characters') - the caller's spellings go through metadata.Pairs / AppendToOutgoingContext, which lower-case them in the grpc version the library is built with, so for the caller's side the spelling dimension exercises that package together with the library; the credential's map reaches the library as spelled",
 		"a credential whose GetRequestMetadata fails has to fail the call without the handler running (as grpc-go does); the error's type is not constrained",
 	}))
 }
